@@ -257,12 +257,13 @@ Qed.
 Definition linv (s : lstate) : Prop :=
   NoDup (map fst (l_ch s)) /\
   (forall ch, In ch (l_pubbed s) -> In ch (map fst (l_ch s))) /\
-  (forall p ch, In p (l_started s) -> told (l_wire s) p ch = true ->
+  (forall p ch, In p (l_started s) \/ In p (l_inc s) -> told (l_wire s) p ch = true ->
      In ch (l_pubbed s) \/ (l_phase s = PGap /\ nsubs ch (l_ch s) <> 0%nat) \/ l_ghost s = true) /\
   (forall ch, In ch (l_pubbed s) -> nsubs ch (l_ch s) = 0%nat -> l_wake s = true \/ l_phase s <> PIdle) /\
-  (forall p c b, In (p, c, b) (l_wire s) -> In p (l_all s) /\ ~ In p (l_inc s)) /\
+  (forall p c b, In (p, c, b) (l_wire s) -> In p (l_all s)) /\
   (forall p, In p (l_inc s) -> In p (l_all s)) /\
-  (forall p, In p (l_started s) -> In p (l_all s) /\ ~ In p (l_inc s)).
+  (forall p, In p (l_started s) -> In p (l_all s) /\ ~ In p (l_inc s)) /\
+  (l_phase s = PGap -> forall p, In p (l_inc s) -> (forall c b, ~ In (p, c, b) (l_wire s)) \/ l_ghost s = true).
 
 Lemma linv_init : linv linit.
 Proof.
@@ -271,28 +272,31 @@ Qed.
 
 Lemma linv_step s a : linv s -> linv (lstep s a).
 Proof.
-  intros [U [I1 [I2 [I3 [I5 [I6 I7]]]]]].
-  destruct a as [ch0|ch0|p0|p0| | |]; cbn [lstep].
+  intros [U [I1 [I2 [I3 [I5 [I6 [I7 I8]]]]]]].
+  destruct a as [ch0|ch0|p0|p0|p0| | |]; cbn [lstep].
   - (* LSubscribe *)
+    assert (HI2 : forall n0, (0 < n0)%nat -> forall p ch, In p (l_started s) \/ In p (l_inc s) -> told (l_wire s) p ch = true ->
+              In ch (l_pubbed s) \/ (l_phase s = PGap /\ nsubs ch (set_key ch0 (n0 + nsubs ch0 (l_ch s)) (l_ch s)) <> 0%nat) \/ l_ghost s = true).
+    { intros n0 Hn p ch Hp Ht. destruct (I2 p ch Hp Ht) as [H|[[H1 H2]|H]]; auto.
+      right. left. split; [exact H1|]. rewrite nsubs_set_key. destruct (Nat.eqb_spec ch0 ch); [lia|exact H2]. }
     destruct (has_key ch0 (l_ch s)) eqn:Hk; unfold linv; cbn [l_ch l_pubbed l_inc l_started l_all l_wire l_wake l_phase l_ghost].
     + split; [apply set_key_nodup, U|].
       split; [intros ch H; apply set_key_keys; right; auto|].
-      split.
-      { intros p ch Hp Ht. destruct (I2 p ch Hp Ht) as [H|[[H1 H2]|H]]; auto.
-        right. left. split; [exact H1|]. rewrite nsubs_set_key. destruct (Nat.eqb_spec ch0 ch); [lia|exact H2]. }
+      split; [exact (HI2 1%nat ltac:(lia))|].
       split.
       { intros ch Hin Hz. rewrite nsubs_set_key in Hz. destruct (Nat.eqb_spec ch0 ch); [lia|]. apply (I3 ch); auto. }
-      split; [assumption|]. split; assumption.
-    + split; [apply set_key_nodup, U|].
+      repeat (split; [assumption|]). assumption.
+    + assert (Hz0 : nsubs ch0 (l_ch s) = 0%nat).
+      { apply nsubs_nokey. intros Hin. apply has_key_spec in Hin. congruence. }
+      split; [apply set_key_nodup, U|].
       split; [intros ch H; apply set_key_keys; right; auto|].
-      split.
-      { intros p ch Hp Ht. destruct (I2 p ch Hp Ht) as [H|[[H1 H2]|H]]; auto.
-        right. left. split; [exact H1|]. rewrite nsubs_set_key. destruct (Nat.eqb_spec ch0 ch); [lia|exact H2]. }
+      split; [pose proof (HI2 1%nat ltac:(lia)) as H; rewrite Hz0 in H; exact H|].
       split; [intros; left; reflexivity|].
-      split; [assumption|]. split; assumption.
+      repeat (split; [assumption|]). assumption.
   - (* LRelease *)
     destruct (nsubs ch0 (l_ch s)) as [|k] eqn:En; unfold linv; cbn [l_ch l_pubbed l_inc l_started l_all l_wire l_wake l_phase l_ghost].
-    + split; [exact U|]. split; [exact I1|]. split; [exact I2|]. split; [intros; left; reflexivity|]. split; [assumption|]. split; assumption.
+    + split; [exact U|]. split; [exact I1|]. split; [exact I2|]. split; [intros; left; reflexivity|].
+      repeat (split; [assumption|]). assumption.
     + split; [apply set_key_nodup, U|].
       split; [intros ch H; apply set_key_keys; right; auto|].
       split.
@@ -309,35 +313,62 @@ Proof.
       { intros ch Hin Hz. rewrite nsubs_set_key in Hz. destruct (Nat.eqb_spec ch0 ch) as [->|Hne].
         - subst k. left. reflexivity.
         - destruct (I3 ch Hin Hz) as [H|H]; auto. left. rewrite H. destruct (Nat.eqb k 0); reflexivity. }
-      split; [assumption|]. split; assumption.
+      split; [assumption|]. split; [assumption|]. split; [assumption|].
+      intros Hp p Hin. destruct (I8 Hp p Hin) as [H|H]; [left; exact H|right; rewrite H; reflexivity].
   - (* LAddPeer *)
-    destruct (mem_nat p0 (l_all s)) eqn:Em; [unfold linv; auto 10|].
+    destruct (mem_nat p0 (l_all s)) eqn:Em; [unfold linv; auto 12|].
     assert (Hnew : ~ In p0 (l_all s)) by (rewrite <- mem_nat_spec; congruence).
+    assert (Hnoent : forall c b, ~ In (p0, c, b) (l_wire s)) by (intros c b H; apply Hnew; eapply I5; eauto).
     unfold linv; cbn [l_ch l_pubbed l_inc l_started l_all l_wire l_wake l_phase l_ghost].
-    split; [exact U|]. split; [exact I1|]. split; [exact I2|]. split; [intros; left; reflexivity|].
+    split; [exact U|]. split; [exact I1|].
     split.
-    { intros p c b Hin. destruct (I5 p c b Hin) as [H1 H2]. split; [right; exact H1|].
-      intros Hi. apply in_app_or in Hi as [Hi|[Hi|[]]]; [auto|]. subst. auto. }
+    { intros p ch Hp Ht. destruct Hp as [Hp|Hp]; [apply (I2 p ch); auto|].
+      apply in_app_or in Hp as [Hp|[<-|[]]]; [apply (I2 p ch); auto|].
+      apply told_true_entry in Ht as [b Hb]. destruct (Hnoent _ _ Hb). }
+    split; [intros; left; reflexivity|].
+    split; [intros p c b Hin; right; eapply I5; eauto|].
     split.
     { intros p Hi. apply in_app_or in Hi as [Hi|[Hi|[]]]; [right; auto|left; auto]. }
-    intros p Hp. destruct (I7 p Hp) as [H1 H2]. split; [right; exact H1|].
-    intros Hi. apply in_app_or in Hi as [Hi|[Hi|[]]]; [auto|]. subst. auto.
+    split.
+    { intros p Hp. destruct (I7 p Hp) as [H1 H2]. split; [right; exact H1|].
+      intros Hi. apply in_app_or in Hi as [Hi|[Hi|[]]]; [auto|]. subst. auto. }
+    intros Hp p Hin. apply in_app_or in Hin as [Hin|[<-|[]]]; [apply I8; auto|left; exact Hnoent].
   - (* LDropPeer *)
     unfold linv; cbn [l_ch l_pubbed l_inc l_started l_all l_wire l_wake l_phase l_ghost].
     split; [exact U|]. split; [exact I1|].
-    split; [intros p ch Hp; apply filter_In in Hp as [Hp _]; apply I2; exact Hp|].
+    split.
+    { intros p ch [Hp|Hp]; [apply filter_In in Hp as [Hp _]|]; apply I2; auto. }
     split; [exact I3|]. split; [assumption|]. split; [assumption|].
-    intros p Hp. apply filter_In in Hp as [Hp _]. auto.
-  - (* LWake *)
-    destruct (l_phase s) eqn:Ep; try (unfold linv; rewrite Ep; auto 10; fail).
-    destruct (l_wake s) eqn:Ew; [|unfold linv; rewrite Ep, Ew; auto 10].
+    split; [intros p Hp; apply filter_In in Hp as [Hp _]; auto|exact I8].
+  - (* LReplace *)
+    destruct (mem_nat p0 (l_started s)) eqn:Em; [|unfold linv; auto 12].
+    apply mem_nat_spec in Em. destruct (I7 p0 Em) as [Hall Hninc].
     unfold linv; cbn [l_ch l_pubbed l_inc l_started l_all l_wire l_wake l_phase l_ghost].
     split; [exact U|]. split; [exact I1|].
     split.
-    { intros p ch Hp Ht. destruct (I2 p ch Hp Ht) as [H|[[H1 H2]|H]]; auto. congruence. }
-    split; [intros; right; discriminate|]. split; [assumption|]. split; assumption.
+    { intros p ch Hp Ht.
+      assert (Hp' : In p (l_started s) \/ In p (l_inc s)).
+      { destruct Hp as [Hp|Hp]; [apply filter_In in Hp as [Hp _]; auto|].
+        apply in_app_or in Hp as [Hp|[<-|[]]]; auto. }
+      destruct (I2 p ch Hp' Ht) as [H|[H|H]]; auto. right. right. rewrite H. reflexivity. }
+    split; [intros; left; reflexivity|].
+    split; [assumption|].
+    split; [intros p Hi; apply in_app_or in Hi as [Hi|[<-|[]]]; auto|].
+    split.
+    { intros p Hp. apply filter_In in Hp as [Hp Hne]. destruct (I7 p Hp) as [H1 H2]. split; [exact H1|].
+      intros Hi. apply in_app_or in Hi as [Hi|[<-|[]]]; [auto|]. rewrite Nat.eqb_refl in Hne. discriminate. }
+    intros Hp p Hin. right. rewrite Hp. apply orb_true_r.
+  - (* LWake *)
+    destruct (l_phase s) eqn:Ep; try (unfold linv; rewrite Ep; auto 12; fail).
+    destruct (l_wake s) eqn:Ew; [|unfold linv; rewrite Ep, Ew; auto 12].
+    unfold linv; cbn [l_ch l_pubbed l_inc l_started l_all l_wire l_wake l_phase l_ghost].
+    split; [exact U|]. split; [exact I1|].
+    split.
+    { intros p ch Hp Ht. destruct (I2 p ch Hp Ht) as [H|[[H1 H2]|H]]; auto; congruence. }
+    split; [intros; right; discriminate|]. split; [assumption|]. split; [assumption|]. split; [assumption|].
+    intros; discriminate.
   - (* LInit *)
-    destruct (l_phase s) eqn:Ep; try (unfold linv; rewrite Ep; auto 10; fail).
+    destruct (l_phase s) eqn:Ep; try (unfold linv; rewrite Ep; auto 12; fail).
     unfold linv; cbn [l_ch l_pubbed l_inc l_started l_all l_wire l_wake l_phase l_ghost].
     split; [exact U|]. split; [exact I1|].
     split.
@@ -347,26 +378,24 @@ Proof.
       { intros Hl. apply lookup_some_in in Hl. apply in_map_iff in Hl as [[c k] [E Hin]]. cbn [fst] in E.
         inversion E; subst. apply filter_In in Hin as [Hin Hk]. cbn [snd] in Hk.
         apply negb_true_iff, Nat.eqb_neq in Hk. rewrite (nsubs_in _ _ _ U Hin). exact Hk. }
-      assert (Hold : told (l_wire s) p ch = true -> In p (l_started s) ->
+      assert (Hp' : In p (l_started s) \/ In p (l_inc s)).
+      { destruct Hp as [Hp|[]]. apply in_app_or in Hp. exact Hp. }
+      assert (Hold : told (l_wire s) p ch = true ->
                      In ch (l_pubbed s) \/ (PGap = PGap /\ nsubs ch (l_ch s) <> 0%nat) \/ l_ghost s = true).
-      { intros Ht' Hp'. destruct (I2 p ch Hp' Ht') as [H|[[H1 H2]|H]]; auto; congruence. }
-      destruct (mem_nat p (l_inc s)) eqn:Em.
-      - destruct (lookup_init ch (filter (fun e => negb (Nat.eqb (snd e) 0)) (l_ch s))) as [El|El];
-          fold init in El; rewrite El in Ht.
-        + right. left. split; [reflexivity|auto].
-        + (* no entry for a stream that was still in incSessions *)
-          exfalso. apply told_true_entry in Ht as [b Hb]. apply mem_nat_spec in Em.
-          destruct (I5 _ _ _ Hb) as [_ Hn]. auto.
-      - apply in_app_or in Hp as [Hp|Hp]; [auto|]. apply mem_nat_spec in Hp. congruence. }
+      { intros Ht'. destruct (I2 p ch Hp' Ht') as [H|[[H1 H2]|H]]; auto; congruence. }
+      destruct (mem_nat p (l_inc s)) eqn:Em; [|auto].
+      destruct (lookup_init ch (filter (fun e => negb (Nat.eqb (snd e) 0)) (l_ch s))) as [El|El];
+        fold init in El; rewrite El in Ht; [right; left; split; [reflexivity|auto]|auto]. }
     split; [intros; right; discriminate|].
     split.
-    { intros p c b Hin. apply in_app_or in Hin as [Hin|Hin].
-      - apply in_bcast in Hin as [Hin _]. split; [apply I6; exact Hin|intros []].
-      - destruct (I5 _ _ _ Hin). split; [assumption|intros []]. }
+    { intros p c b Hin. apply in_app_or in Hin as [Hin|Hin]; [|eapply I5; eauto].
+      apply in_bcast in Hin as [Hin _]. apply I6; exact Hin. }
     split; [intros p []|].
-    intros p Hp. split; [|intros []]. apply in_app_or in Hp as [Hp|Hp]; [apply I7; exact Hp|apply I6; exact Hp].
+    split.
+    { intros p Hp. split; [|intros []]. apply in_app_or in Hp as [Hp|Hp]; [apply I7; exact Hp|apply I6; exact Hp]. }
+    intros _ p [].
   - (* LSweep *)
-    destruct (l_phase s) eqn:Ep; try (unfold linv; rewrite Ep; auto 10; fail).
+    destruct (l_phase s) eqn:Ep; try (unfold linv; rewrite Ep; auto 12; fail).
     pose proof (fun ch => sweep_pubbed (l_ch s) (l_pubbed s) ch U) as SP.
     pose proof (fun ch => sweep_changes (l_ch s) (l_pubbed s) ch U) as SC.
     destruct (sweep (l_ch s) (l_pubbed s)) as [changes pubbed'] eqn:Es. cbn [fst snd] in SP, SC.
@@ -378,20 +407,25 @@ Proof.
     split.
     { intros ch Hin. apply nsubs_nonzero_key. rewrite nsubs_filter by exact U. auto. }
     split.
-    { intros p ch Hp Ht. rewrite told_bcast in Ht. apply mem_nat_spec in Hp. rewrite Hp in Ht.
-      apply mem_nat_spec in Hp. destruct (SP ch) as [S1 _]. destruct (SC ch) as [C1 C2].
-      destruct (lookup ch changes) as [[|]|] eqn:El.
-      - left. apply C1. reflexivity.
-      - discriminate.
-      - destruct (I2 p ch Hp Ht) as [H|[[_ H2]|H]]; auto.
-        destruct (Nat.eq_dec (nsubs ch (l_ch s)) 0) as [Hz|Hz]; [|left; auto].
-        discriminate (C2 H (I1 _ H) Hz). }
+    { intros p ch Hp Ht. rewrite told_bcast in Ht.
+      destruct (mem_nat p (l_started s)) eqn:Em.
+      - apply mem_nat_spec in Em. destruct (SP ch) as [S1 _]. destruct (SC ch) as [C1 C2].
+        destruct (lookup ch changes) as [[|]|] eqn:El.
+        + left. apply C1. reflexivity.
+        + discriminate.
+        + destruct (I2 p ch (or_introl Em) Ht) as [H|[[_ H2]|H]]; auto.
+          destruct (Nat.eq_dec (nsubs ch (l_ch s)) 0) as [Hz|Hz]; [|left; auto].
+          discriminate (C2 H (I1 _ H) Hz).
+      - (* a stream that is pending during the gap: it has no entries, unless the ghost is raised *)
+        destruct Hp as [Hp|Hp]; [apply mem_nat_spec in Hp; congruence|].
+        destruct (I8 eq_refl p Hp) as [H|H]; [|auto].
+        apply told_true_entry in Ht as [b Hb]. destruct (H _ _ Hb). }
     split.
     { intros ch Hin Hz. rewrite nsubs_filter in Hz by exact U. destruct (Hnz ch Hin Hz). }
     split.
-    { intros p c b Hin. apply in_app_or in Hin as [Hin|Hin]; [|apply I5 in Hin; exact Hin].
+    { intros p c b Hin. apply in_app_or in Hin as [Hin|Hin]; [|eapply I5; eauto].
       apply in_bcast in Hin as [Hin _]. apply I7. exact Hin. }
-    split; assumption.
+    split; [assumption|]. split; [assumption|]. intros; discriminate.
 Qed.
 
 Lemma linv_run l : forall s, linv s -> linv (lrun s l).
@@ -412,7 +446,7 @@ Proof.
   intros s [Qp Qw] Hg Hp Hz.
   destruct (linv_run l linit linv_init) as [U [I1 [I2 [I3 _]]]]. fold s in U, I1, I2, I3.
   destruct (told (l_wire s) p ch) eqn:Et; [|reflexivity]. exfalso.
-  destruct (I2 p ch Hp Et) as [H|[[H _]|H]]; [|congruence|congruence].
+  destruct (I2 p ch (or_introl Hp) Et) as [H|[[H _]|H]]; [|congruence|congruence].
   destruct (I3 ch H Hz) as [H'|H']; congruence.
 Qed.
 
@@ -455,7 +489,7 @@ Proof. vm_compute. repeat split; auto 10. Qed.
    statement holds.  This is the statement for the loop body without the
    "intentional mtx hold-break". *)
 Inductive pact :=
-| PSubscribe (ch : nat) | PRelease (ch : nat) | PAddPeer (p : nat) | PDropPeer (p : nat) | PWake | PPass.
+| PSubscribe (ch : nat) | PRelease (ch : nat) | PAddPeer (p : nat) | PDropPeer (p : nat) | PReplace (p : nat) | PWake | PPass.
 
 Definition expand1 (a : pact) : list lact :=
   match a with
@@ -463,6 +497,7 @@ Definition expand1 (a : pact) : list lact :=
   | PRelease ch => [LRelease ch]
   | PAddPeer p => [LAddPeer p]
   | PDropPeer p => [LDropPeer p]
+  | PReplace p => [LReplace p]
   | PWake => [LWake]
   | PPass => [LInit; LSweep]
   end.
@@ -477,7 +512,7 @@ Lemma nogap_step s a :
   l_phase (lrun s (expand1 a)) <> PGap /\ l_ghost (lrun s (expand1 a)) = false.
 Proof.
   destruct s as [c0 pb inc st al w wk ph g]. cbn [l_phase l_ghost]. intros Hp Hg. subst g.
-  destruct ph; try contradiction; destruct a as [ch|ch|p|p| |]; unfold lrun;
+  destruct ph; try contradiction; destruct a as [ch|ch|p|p|p| |]; unfold lrun;
     cbn [expand1 fold_left lstep l_phase l_ghost l_ch l_pubbed l_inc l_started l_all l_wire l_wake];
     repeat match goal with
            | |- context [match ?x with _ => _ end] => destruct x
